@@ -15,6 +15,7 @@ EXPECTED = [
     ('fromImportAttributeFirst', 'Bool', 'true'),
     ('moduleInfoProducers', 'List String', lean_list(['get_module_info', 'get_module_info'])),
     ('importModuleFileProbes', 'List String', '[]'),
+    ('starImportsOwnContext', 'Bool', 'true'),
 ]
 
 
@@ -185,10 +186,24 @@ def _generate(repo, g):
     if not has(pk, 'if self.string_names is None:\n return []\nif self._is_package:\n return self.string_names\n'
                    'return self.string_names[:-1]'):
         raise TieBroken('module.py: ModuleValue.py__package__ shape')
+    # ---- ModuleMixin.star_imports: every star import is followed in the context of the module that CONTAINS it
+    # (the recursion is `module.star_imports()`, which builds that module's own `self.as_context()`)
+    star = u(mod.find('ModuleMixin.star_imports'))
+    for needle in ('modules = []\nmodule_context = self.as_context()\nfor i in self.tree_node.iter_imports():\n'
+                   ' if i.is_star_import():\n new = Importer(self.inference_state, import_path=i.get_paths()[-1], '
+                   'module_context=module_context, level=i.level).follow()\n'
+                   ' for module in new:\n if isinstance(module, ModuleValue):\n'
+                   ' modules += module.star_imports()\n modules += new\nreturn modules',):
+        if not has(star, needle):
+            raise TieBroken('module.py: ModuleMixin.star_imports no longer follows every star import in the own '
+                            'context of the module that contains it (`%s`)' % needle)
+    g.define('starImportsOwnContext', 'Bool', lean_bool(True),
+             'jedi/inference/value/module.py:ModuleMixin.star_imports - module_context = self.as_context(); the '
+             'recursion is module.star_imports()')
     for s, d in [(sp, 'remove_python_path_suffix'), (sp, 'transform_path_to_dotted'),
                  (imp, 'Importer.__init__'), (imp, '_level_to_base_import_path'), (imp, 'Importer.follow'),
                  (imp, 'import_module_by_names'), (imp, 'import_module'), (imp, 'infer_import'),
                  (imp, 'goto_import'), (imp, '_prepare_infer_import'),
-                 (mod, 'ModuleValue.py__package__'), (mod, 'ModuleValue.py__path__'),
+                 (mod, 'ModuleValue.py__package__'), (mod, 'ModuleValue.py__path__'), (mod, 'ModuleMixin.star_imports'),
                  (fun, 'get_module_info'), (fun, '_find_module'), (fun, '_find_module_py33'), (fun, '_from_loader')]:
         g.fp(s, d)
